@@ -386,7 +386,7 @@ class Ctx:
         """Run TLC on specs/<module>.tla with specs/<cfg>.  Returns TLCResult."""
         workers = workers or min(NCPU, 8)
         meta = os.path.join(self.work, "meta.%d" % len(os.listdir(self.work)))
-        cmd = _java(["-Xmx" + xmx, "-Xss64m"]) + ["-workers", str(workers), "-metadir", meta,
+        cmd = _java(["-Xmx" + xmx, "-Xss512m"]) + ["-workers", str(workers), "-metadir", meta,
                                         "-config", cfg, "-noGenerateSpecTE"]
         if coverage:
             cmd += ["-coverage", "1"]
@@ -560,7 +560,7 @@ class Ctx:
             raise InfraError("no executions recorded for " + module)
         nev = sum(len(x) for x in execs)
         shards = shards or NCPU
-        shards = max(1, min(shards, len(execs), max(1, nev // 2000)))
+        shards = max(1, min(shards, len(execs), max(1, nev // 600)))
         # balance by event count
         buckets = [[] for _ in range(shards)]
         sizes = [0] * shards
